@@ -13,11 +13,12 @@ CLS = {"modules": ("iauth_xquery", "iauth_class"),
        "rules": [{"name": "r0", "account": "zzz-no-such-*", "class": "cnever"},
                  {"name": "ra", "account": "?*", "class": "cacct"}, {"name": "rz", "class": "cdef"}],
        "cls": {"on": True, "acct": "cacct", "none": "cdef"}}
-# variant with an xreply_ok rule in front: an OK from b2.svc decides the class
+# variant with xreply_ok rules in front: an OK from a1.svc (with or without an account), else one from b2.svc, decides
 CLSX = {"modules": ("iauth_xquery", "iauth_class"),
-        "rules": [{"name": "r0", "xreply_ok": "b2.svc", "class": "cxr"},
+        "rules": [{"name": "r0", "xreply_ok": "a1.svc", "class": "cxa"}, {"name": "r1", "xreply_ok": "b2.svc", "class": "cxb"},
                   {"name": "ra", "account": "?*", "class": "cacct"}, {"name": "rz", "class": "cdef"}],
-        "cls": {"on": True, "acct": "cacct", "none": "cdef", "xr": {"svc": "b2.svc", "class": "cxr"}}}
+        "cls": {"on": True, "acct": "cacct", "none": "cdef",
+                "xr": [{"svc": "a1.svc", "class": "cxa"}, {"svc": "b2.svc", "class": "cxb"}]}}
 
 
 def plans(ctx):
